@@ -1,22 +1,34 @@
 """C20 - the Rust binding's mirrored types and foreign declarations match the C ABI.
 
 One run (see DESIGN.md C20, CONVENTIONS.md):
-  1. prove       coq/Properties_C20.v (layout_wf, abi_compatible_sound, read_field_agree, ...).
+  1. prove       coq/Properties_C20.v (layout_wf, abi_compatible_sound, read_field_agree, ... and their
+                 versions for every target of the parametric model coq/C20/AbiTarget.v).
   2. regenerate  both declaration lists from the CURRENT tree ($VERIF_REPO): C side = clang JSON AST
                  of include/a/*.h, Rust side = parser of src/lib.rs, once per real width
-                 (harness/C20/abi2coq.py) -> build/C20/AbiGen.v.
+                 (harness/C20/abi2coq.py) -> build/C20/AbiGen.v; and once more per width for every
+                 cross target of harness/C20/abix.py (i686 Linux, Windows x64 MinGW / MSVC, AArch64
+                 Linux, 32-bit ARM EABI with -fshort-enums, + the host as a sanity target) with the
+                 TARGET's front ends (clang --target, rustc --target) -> build/C20/AbiGenX_<target>.v.
   3. reflect     build/C20/AbiGenThm.v: `abi_compatible rust_fXX c_fXX = true` by vm_compute, its
-                 consequences by the soundness theorem; counted as obligations.
+                 consequences by the soundness theorem; build/C20/AbiGenThmX_<target>.v: the same with
+                 `abi_compatible_t <target parameters>`; all counted as obligations.
   4. tie         the model's own layout function (vm_compute in coqc) against gcc, clang (C lists)
-                 and rustc (Rust lists) line by line; the translator's type resolution is
-                 type-checked by the compilers (_Static_assert(__builtin_types_compatible_p) /
-                 fn-pointer coercions); nm on objects built from the current sources confirms every
-                 declared symbol; a corpus case and random synthetic declaration lists (padding,
-                 nesting, arrays, unions, perturbed mirrors) go through the whole pipeline and the
-                 model's mismatch list must equal the independent oracle's.
+                 and rustc (Rust lists) line by line, on the host (programs run) and on every cross
+                 target (clang's constant evaluator read from the AST, rustc's layout_of in a no_core
+                 crate); the translator's type resolution is type-checked by the compilers
+                 (_Static_assert(__builtin_types_compatible_p) / fn-pointer coercions), for every
+                 target; the pairing clang target <-> rustc target is checked on the primitives; nm on
+                 objects built from the current sources confirms every declared symbol; a corpus case
+                 and random synthetic declaration lists (padding, nesting, arrays, unions, perturbed
+                 mirrors) go through the whole pipeline and the model's mismatch list must equal the
+                 independent oracle's.
   5. search oracle  the property itself evaluated on what the COMPILERS report (rustc layout vs C
-                 compiler layout) and on the parsed prototypes with an independent Python
-                 compatibility relation: every disagreeing declaration is a concrete failing input.
+                 compiler layout, per target) and on the parsed prototypes with an independent Python
+                 compatibility relation: every disagreeing declaration is a concrete failing input
+                 (cross targets: key <declaration>/<target triple>, with a small probe that clang
+                 rejects for that target); and on the SHARED library built the way CMakeLists.txt
+                 builds it (-fPIC -fvisibility=hidden -DA_EXPORTS): every foreign fn / static of
+                 lib.rs must be a defined dynamic symbol (nm -D), key <symbol>/not-exported.
 """
 import json
 import random
@@ -31,6 +43,7 @@ import vlib
 
 sys.path.insert(0, str(vlib.VERIF / "harness" / "C20"))
 import abi2coq as A  # noqa: E402
+import abix as X  # noqa: E402
 
 WIDTHS = ((8, "f64", False), (4, "f32", True))
 
@@ -145,30 +158,172 @@ def nontrivial_structs(lines):
 
 
 def defined_symbols(ctx, real):
-    """nm over objects compiled from the CURRENT src/*.c"""
+    """Objects compiled from the CURRENT src/*.c with the flags the project's CMake uses for every
+    library target (set_library_compile / set_library_options of CMakeLists.txt: POSITION_INDEPENDENT_CODE,
+    C_VISIBILITY_PRESET hidden, -DA_EXPORTS), `nm` over them (what the static archive alib holds), and
+    the shared object liba linked from the same objects, `nm -D` over it (what it exports).
+    -> {"obj": {symbol: type}, "dyn": {symbol: type}, "how": [the two commands that reproduce "dyn"]}"""
     cfg = ctx.cfg_header(real=real)
     od = ctx.build / ("obj_r%d" % real)
     if od.exists():
         shutil.rmtree(od)
     od.mkdir(parents=True)
     srcs = sorted((vlib.REPO / "src").glob("*.c"))
+    flags = ["-std=c11", "-O0", "-w", "-fPIC", "-fvisibility=hidden", "-I", str(vlib.REPO / "include"), "-DA_EXPORTS",
+             '-DA_HAVE_H="%s"' % cfg]
 
     def one(s):
         o = od / (s.stem + ".o")
-        return s, vlib.sh(["gcc", "-std=c11", "-O0", "-w", "-I", str(vlib.REPO / "include"), "-DA_EXPORTS",
-                           '-DA_HAVE_H="%s"' % cfg, "-c", str(s), "-o", str(o)], timeout=120)
-    with ThreadPoolExecutor(max_workers=vlib.NPROC) as ex:
+        return s, vlib.sh(["gcc"] + flags + ["-c", str(s), "-o", str(o)], timeout=120)
+    with ThreadPoolExecutor(max_workers=min(4, vlib.NPROC)) as ex:
         res = list(ex.map(one, srcs))
     bad = [(s, o) for s, (rc, o) in res if rc != 0]
     if bad:
         raise vlib.CheckError("src/%s does not compile: %s" % (bad[0][0].name, bad[0][1][-800:]))
+
+    def table(out):
+        syms = {}
+        for ln in out.splitlines():
+            w = ln.split()
+            if len(w) == 3:
+                syms[w[2]] = w[1]
+        return syms
     rc, out = vlib.sh("nm -g --defined-only %s/*.o" % od, timeout=60)
-    syms = {}
-    for ln in out.splitlines():
-        w = ln.split()
-        if len(w) == 3:
-            syms[w[2]] = w[1]
-    return syms
+    obj = table(out)
+    so = od / "liba.so"
+    rc, out = vlib.sh(["gcc", "-shared", "-o", str(so)] + [str(od / (s.stem + ".o")) for s in srcs] + ["-lm"], timeout=120)
+    if rc != 0:
+        raise vlib.CheckError("the shared object does not link: %s" % out[-800:])
+    rc, out = vlib.sh(["nm", "-D", "--defined-only", str(so)], timeout=60)
+    if rc != 0:
+        raise vlib.CheckError("nm -D failed: %s" % out[-300:])
+    how = ["gcc %s %s/src/*.c -shared -o %s -lm" % (" ".join("'%s'" % f if '"' in f else f for f in flags), vlib.REPO, so),
+           "nm -D --defined-only %s" % so]
+    return {"obj": obj, "dyn": table(out), "how": how}
+
+
+# ------------------------------------------------------------------------------------------ other data models
+
+def cross_cfg(ctx, real):
+    """the configuration header of the host runs without the two host facts (pointer size, byte order):
+    a/a.h derives them from the target compiler's own macros"""
+    host = ctx.cfg_header(real=real).read_text()
+    txt = "".join(ln + "\n" for ln in host.splitlines() if not re.match(r"#define A_(SIZE_POINTER|BYTE_ORDER)\b", ln))
+    d = ctx.build / "x"
+    d.mkdir(parents=True, exist_ok=True)
+    p = d / ("cfg_r%d.h" % real)
+    if not p.exists() or p.read_text() != txt:
+        p.write_text(txt)
+    return p
+
+
+def cross_collect(ctx, by_width):
+    """{(width tag, triple): result of X.one} - clang and rustc front ends only, nothing is run"""
+    jobs = []
+    for tag, (real, flt, cfg, c, r) in by_width.items():
+        xcfg = cross_cfg(ctx, real)
+        for tg in X.TARGETS:
+            jobs.append((tag, real, xcfg, tg, r))
+
+    def one(j):
+        tag, real, xcfg, tg, r = j
+        t0 = time.time()
+        res = X.one(vlib.REPO, xcfg, ctx.build / "x" / tg.ident, real, tag, tg, r)
+        res["target"], res["cfg"], res["secs"] = tg, xcfg, round(time.time() - t0, 2)
+        return (tag, tg.triple), res
+    with ThreadPoolExecutor(max_workers=min(4, vlib.NPROC)) as ex:
+        return dict(ex.map(one, jobs))
+
+
+def cross_judge(ctx, by_width, xres, dumps, mms, host_reported, host_keys, host_lay, stats, thm_ok):
+    found = {}      # (declaration, triple) -> {"kind", "items": [(key, what, det)], "tags": [..], "res"}
+    cov = ctx.cov.setdefault("cross_targets", {})
+    n_thm = 0
+    for (tag, triple), res in sorted(xres.items(), key=lambda kv: (kv[0][1], kv[0][0])):
+        tg = res["target"]
+        ent = cov.setdefault(triple, {"rust_target": tg.rust, "data_model": tg.model,
+                                      "front_end": " ".join(tg.cmd()) + " -fsyntax-only", "widths": {}})
+        if "error" in res:
+            ctx.tie_broken("cross-target probe [%s/%s] failed: %s" % (triple, tag, res["error"]))
+            ent["widths"][tag] = {"error": res["error"][:300]}
+            continue
+        c, r = res["c"], res["r"]
+        ent["pointer"] = list(res["ptr"])
+        ent["c_base_types"] = {k: [v[1], res["align"].get(k)] for k, v in sorted(res["base"].items())
+                               if len(v) > 1 and k in ("int", "long", "long long", "double", "long double")}
+        if res["pairing"]:
+            ctx.tie_broken("clang --target=%s and rustc --target %s disagree on primitives %s: the two targets are not "
+                           "the same platform" % (triple, tg.rust, res["pairing"][:4]))
+        w = {"c_records": len(c.structs), "rust_structs": len(r.structs), "rust_fns": len(r.funs), "rust_statics": len(r.vars),
+             "layout_lines_clang": len(res["lines"]), "layout_lines_rustc": len(res["rust_lines"]),
+             "primitives_equal_clang_rustc": len(X.PRIMS) - len(res["pairing"]), "secs": res["secs"]}
+        stats["lines"] += len(res["lines"]) + len(res["rust_lines"])
+        okeys = sorted(k for k, _, _ in res["mismatches"])
+        w["mismatch_keys"] = okeys
+        idn = res["ident"]
+        bad_decl = {X.decl_name(k)[1] for k in okeys}
+        w["declarations_identical_per_clang"] = sum(1 for n, v in idn.items() if v)
+        w["not_identical_accepted_by_compat"] = sorted(n for n, v in idn.items() if not v and n not in bad_decl)
+        both = sorted(n for n, v in idn.items() if v and n in bad_decl)
+        if both:
+            w["identical_for_clang_but_rejected"] = both      # e.g. an enum type: compatible with its underlying type
+        ctx.count(evaluations=len(r.structs) + sum(len(s_[2]) for s_ in r.structs) + len(r.funs)
+                  + sum(len(f[1]) + 1 for f in r.funs) + len(r.vars), nontrivial=nontrivial_structs(res["rust_lines"]))
+        if tg.host:
+            # sanity: this path must reproduce the host path (gcc-run probe, rustc-run probe, oracle)
+            clay, rlay = host_lay.get(tag, (None, None))
+            if clay is not None:
+                compare_lines(ctx, "cross path (clang AST constants) vs host C probe [%s]" % tag, clay, res["lines"], stats)
+            if rlay is not None:
+                compare_lines(ctx, "cross path (rustc no_core layouts) vs host rustc probe [%s]" % tag, rlay, res["rust_lines"], stats)
+            if clay is not None and rlay is not None and okeys != host_keys.get(tag):
+                ctx.tie_broken("cross path on the host target reports %s, the host path %s" % (okeys[:6], (host_keys.get(tag) or [])[:6]))
+            w["model"] = "host: reflection theorems liba_abi_%s*" % tag
+        elif res.get("coq"):
+            xt = res["coq"]
+            compare_lines(ctx, "layout model vs clang --target=%s [c_%s]" % (triple, tag), dumps.get("c_" + xt, []), res["lines"], stats)
+            compare_lines(ctx, "layout model vs rustc --target %s [rust_%s]" % (tg.rust, tag), dumps.get("rust_" + xt, []), res["rust_lines"], stats)
+            mkeys = sorted(A.mm_key(t) for t in mms.get(xt, ["<none>"]))
+            if mkeys != okeys:
+                ctx.tie_broken("abi_mismatches [%s/%s] (model) %s differs from the oracle %s" % (triple, tag, mkeys[:6], okeys[:6]))
+            w["model"] = ("reflection: abi_compatible_t %s rust_%s c_%s = true by vm_compute (liba_abi_%s, _agree, _wf)"
+                          % (A.coq_target(res["tg"]), xt, xt, xt)
+                          if tg.ident in thm_ok else "model evaluated (abi_mismatches); the reflection theorems did not check")
+            n_thm += 3 if tg.ident in thm_ok else 0
+        else:
+            w["model"] = "compiler-observed only: " + res["model_why"]
+        ent["widths"][tag] = w
+        for key, what, det in res["mismatches"]:
+            if key in host_reported:
+                w.setdefault("also_reported_for_the_host", []).append(key)
+                continue
+            kind, name = X.decl_name(key)
+            f = found.setdefault((name, triple), {"kind": kind, "items": [], "tags": [], "res": res, "tag": tag})
+            if tag not in f["tags"]:
+                f["tags"].append(tag)
+            if key not in [k for k, _, _ in f["items"]]:
+                f["items"].append((key, what, det))
+    rh = by_width["f64"][4]
+    for (name, triple), f in sorted(found.items()):
+        res, tg = f["res"], f["res"]["target"]
+        key = "%s/%s" % (name, triple)
+        ctx.c20_keys.append(key)
+        try:
+            probe, cmd, msgs = X.focused_probe(res, f["kind"], name, f["items"], ctx.build / "x" / tg.ident, tg, vlib.REPO,
+                                               res["cfg"], f["tag"])
+        except Exception as e:      # the finding stands without the extra probe
+            probe, cmd, msgs = res["probe"], res["cmd"], ["(focused probe not generated: %s)" % e]
+        line = {"fn": rh.meta["fn_lines"], "static": rh.meta["var_lines"], "struct": rh.meta["lines"]}.get(f["kind"], {}).get(name)
+        what = ("on %s (%s; rustc target %s): " % (triple, tg.model, tg.rust)
+                + "; ".join(w_ for _, w_, _ in f["items"])[:900] + " [configurations: %s]" % ",".join(f["tags"]))
+        ctx.report(key, what,
+                   {"kind": "cross-target declaration", "key": key, "declaration": name, "target": triple,
+                    "clang_options": list(tg.cmd()[1:]), "rust_target": tg.rust, "configurations": f["tags"],
+                    "mismatches": [{"key": k, "what": w_, "detail": d} for k, w_, d in f["items"]],
+                    "probe_file": str(probe), "probe_text": Path(probe).read_text()[-6000:] if Path(probe).exists() else None,
+                    "command": " ".join(cmd), "clang_message": msgs, "lib_rs_line": line, "repo": str(vlib.REPO),
+                    "replay_with": "python3 tools/vcheck.py C20 --replay <this file>"}, found_input=True)
+    return n_thm
 
 
 # ------------------------------------------------------------------------------------------ real tree
@@ -194,46 +349,100 @@ def run_real(ctx, proofs_ok):
         by_width[tag] = (real, flt, cfg, c, r)
     pairs = [(tag, "rust_" + tag, "c_" + tag) for _, tag, _ in WIDTHS]
 
-    rc, out = coqc(ctx, "AbiGen", A.emit_decls_file(str(vlib.REPO), named))
-    if rc != 0:
-        ctx.tie_broken("generated declarations do not compile (translator bug?): " + out[-500:])
-        return None
-    ev = A.emit_eval_file("AbiGen", pairs, [n for n, _ in named])
-    ev += 'Eval vm_compute in ("BEGIN-DUMP rust_only", rust_only, "END-DUMP").\n'
-    rc, out = coqc(ctx, "AbiGenEval", ev)
-    if rc != 0:
-        ctx.tie_broken("model evaluation failed: " + out[-500:])
-        return None
-    dumps, mms = A.parse_eval_output(out)
-    if tuple(dumps.get("rust_only", [])) != tuple(A.RUST_ONLY):
-        ctx.tie_broken("rust_only list of AbiDefs.v %s differs from the oracle's %s" % (dumps.get("rust_only"), A.RUST_ONLY))
+    # the other data models: clang / rustc front ends for every target of X.TARGETS (harness/C20/abix.py)
+    t0 = time.time()
+    xres = cross_collect(ctx, by_width)
+    ctx.log("cross targets: %d front-end runs (clang + rustc) for %d targets x %d widths, %.1fs"
+            % (2 * len(xres), len(X.TARGETS), len(by_width), time.time() - t0))
+    for (tag, triple), res in sorted(xres.items(), reverse=True):
+        tg = res.get("target")
+        if "error" in res or tg.host or not res["model"]:
+            continue
+        if any(o.get("tg") not in (None, res["tg"]) for (t2, tr2), o in xres.items() if tr2 == triple):
+            res["model"], res["model_why"] = False, "the two widths give different layout parameters"
+            continue
+        xt = "%s_%s" % (tag, tg.ident)
+        named += [("c_" + xt, res["c"]), ("rust_" + xt, res["r"])]
+        pairs.append((xt, "rust_" + xt, "c_" + xt))
+        res["coq"] = xt
 
-    # reflection theorems against the regenerated lists
-    thm_src = A.emit_thm_file("AbiGen", pairs)
-    n_thm = len(re.findall(r"^Theorem ", thm_src, flags=re.M))
-    ctx.cov["obligations"] += n_thm
-    thm_ok = False
-    if proofs_ok:
-        rc, out = coqc(ctx, "AbiGenThm", thm_src)
+    # One unit of generated Coq files per platform (host; every cross target the model applies to):
+    # declarations, model evaluation (layout dumps + abi_mismatches), reflection theorems.  The units
+    # are compiled concurrently; a cross-target disagreement cannot hide the host theorems.
+    units = [("", [x for x in named if x[0].split("_", 1)[1] in by_width], [p_ for p_ in pairs if p_[0] in by_width])]
+    units = [units[0] + (None,)]
+    for tg in X.TARGETS:
+        rs = [res for (tag, triple), res in sorted(xres.items(), reverse=True) if triple == tg.triple and res.get("coq")]
+        if rs:
+            units.append(("X_" + tg.ident, [x for x in named if x[0].endswith("_" + tg.ident)],
+                          [p_ for p_ in pairs if p_[0].endswith("_" + tg.ident)], rs[0]["tg"]))
+
+    def unit(u):
+        suffix, named_u, pairs_u, tgp = u
+        gen = "AbiGen" + suffix
+        r_gen = coqc(ctx, gen, A.emit_decls_file(str(vlib.REPO), named_u))
+        if r_gen[0] != 0:
+            return suffix, r_gen, None, None, None
+        if tgp is None:
+            ev = A.emit_eval_file(gen, pairs_u, [n for n, _ in named_u])
+            ev += 'Eval vm_compute in ("BEGIN-DUMP rust_only", rust_only, "END-DUMP").\n'
+            thm_src = A.emit_thm_file(gen, pairs_u)
+        else:
+            ev = A.emit_eval_file_t(gen, pairs_u, [n for n, _ in named_u], tgp)
+            thm_src = A.emit_thm_file_t(gen, pairs_u, tgp)
+        r_ev = coqc(ctx, "AbiGenEval" + suffix, ev)
+        r_thm = coqc(ctx, "AbiGenThm" + suffix, thm_src) if proofs_ok else None
+        return suffix, r_gen, r_ev, thm_src, r_thm
+    with ThreadPoolExecutor(max_workers=min(4, vlib.NPROC)) as ex:
+        done = list(ex.map(unit, units))
+    dumps, mms = {}, {}
+    thm_ok, thm_x_ok = False, set()
+    for suffix, r_gen, r_ev, thm_src, r_thm in done:
+        if r_gen[0] != 0:
+            ctx.tie_broken("generated declarations AbiGen%s.v do not compile (translator bug?): %s" % (suffix, r_gen[1][-500:]))
+            if not suffix:
+                return None
+            continue
+        if r_ev[0] != 0:
+            ctx.tie_broken("model evaluation AbiGenEval%s.v failed: %s" % (suffix, r_ev[1][-500:]))
+            if not suffix:
+                return None
+        else:
+            d_, m_ = A.parse_eval_output(r_ev[1])
+            dumps.update(d_)
+            mms.update(m_)
+        # reflection theorems against the regenerated lists
+        n_thm = len(re.findall(r"^Theorem ", thm_src, flags=re.M))
+        ctx.cov["obligations"] += n_thm
+        if r_thm is None:
+            continue
+        rc, out = r_thm
         n_closed = len(re.findall(r"^Closed under the global context", out, flags=re.M))
         if rc == 0 and n_closed == n_thm:
-            thm_ok = True
+            if suffix:
+                thm_x_ok.add(suffix[2:])
+            else:
+                thm_ok = True
             ctx.cov["discharged"] += n_thm
             ctx.cov.setdefault("theorems", []).extend(re.findall(r"^Theorem (\w+)", thm_src, flags=re.M))
-            ctx.cov["trusted_base"].append("generated build/C20/AbiGenThm.v: %d reflection theorems, all closed under the global context" % n_thm)
+            ctx.cov["trusted_base"].append("generated build/C20/AbiGenThm%s.v: %d reflection theorems, all closed under the global context" % (suffix, n_thm))
         else:
+            ctx.cov["discharged"] += n_closed       # coqc stops at the first theorem that fails: the ones before it were checked
             m = re.search(r'line (\d+)', out)
             which = "?"
             if m:
-                which = vlib.enclosing_name(ctx.build / "AbiGenThm.v", int(m.group(1)))
+                which = vlib.enclosing_name(ctx.build / ("AbiGenThm%s.v" % suffix), int(m.group(1)))
             ctx.tie_broken("reflection theorem %s no longer checks against the regenerated declarations: %s"
                            % (which, " ".join(out.split())[-300:]))
-    ctx.cov["checker_cmd"] += ("; coqc -Q coq LibaV on build/C20/AbiGen.v, AbiGenEval.v, AbiGenThm.v (regenerated from "
-                               "%s on this run)" % vlib.REPO)
+    if tuple(dumps.get("rust_only", [])) != tuple(A.RUST_ONLY):
+        ctx.tie_broken("rust_only list of AbiDefs.v %s differs from the oracle's %s" % (dumps.get("rust_only"), A.RUST_ONLY))
+    ctx.cov["checker_cmd"] += ("; coqc -Q coq LibaV on build/C20/AbiGen*.v, AbiGenEval*.v, AbiGenThm*.v (one unit for the host, one per "
+                               "cross target the layout model applies to; regenerated from %s on this run)" % vlib.REPO)
 
     # layout model against the compilers; translator's type resolution type-checked by the compilers
     reported = {}
     nm_cache = {}
+    host_keys, host_lay = {}, {}
     for tag, (real, flt, cfg, c, r) in by_width.items():
         layouts = {}
         for comp in ("gcc", "clang"):
@@ -257,6 +466,7 @@ def run_real(ctx, proofs_ok):
             check_rust_base(ctx, base, "rustc/" + tag)
             compare_lines(ctx, "layout model vs rustc [rust_%s]" % tag, dumps.get("rust_" + tag, []), rlay, stats)
         clay = layouts.get("gcc") or layouts.get("clang")
+        host_lay[tag] = (clay, rlay)
 
         # the search oracle: compilers' numbers + independent compatibility relation
         have = rlay is not None and clay is not None
@@ -276,16 +486,35 @@ def run_real(ctx, proofs_ok):
         elif model_keys and not thm_ok:
             pass     # the broken reflection theorem is explained by these mismatches
         # symbols
-        syms = defined_symbols(ctx, real) if (real == 8 or not ctx.quick) else nm_cache.get("syms", {})
-        nm_cache["syms"] = syms
+        host_keys[tag] = sorted(k for k, _, _ in oracle)
+        built = defined_symbols(ctx, real) if (real == 8 or not ctx.quick) else nm_cache.get("syms", {})
+        nm_cache["syms"] = built
+        syms, dyn = built.get("obj", {}), built.get("dyn", {})
+        missing = set()
         for (n, ps, rt) in r.funs:
             if syms and syms.get(n) not in ("T", "t", "W", "i"):
+                missing.add(n)
                 oracle.append(("fn/%s/no-symbol" % n, "foreign fn %s is declared in lib.rs but the library built from "
                                "the current sources defines no such function (nm: %s)" % (n, syms.get(n)), {"fn": n}))
         for (n, t) in r.vars:
             if syms and syms.get(n) not in ("D", "R", "B", "d", "r", "b", "G", "S", "C", "V"):
+                missing.add(n)
                 oracle.append(("static/%s/no-symbol" % n, "foreign static %s has no definition in the library (nm: %s)"
                                % (n, syms.get(n)), {"static": n}))
+        # the shared library (hidden visibility preset): a definition that is not exported is not there
+        # for a binding that links liba.so / liba.dll
+        for kind, n in [("fn", f[0]) for f in r.funs] + [("static", v[0]) for v in r.vars]:
+            if dyn and n not in missing and dyn.get(n) not in (("T", "W", "i") if kind == "fn" else ("D", "R", "B", "G", "S", "V")):
+                oracle.append(("%s/not-exported" % n, "foreign %s %s is defined by the library objects (nm: %s) but is NOT an "
+                               "exported symbol of the shared library built the way CMakeLists.txt builds it "
+                               "(-fPIC -fvisibility=hidden -DA_EXPORTS; nm -D: %s): its declaration lacks A_PUBLIC / A_EXTERN"
+                               % (kind, n, syms.get(n), dyn.get(n)),
+                               {"symbol": n, "_replay": {"symbol": n, "how": built.get("how")},
+                                "_line": (r.meta["fn_lines"] if kind == "fn" else r.meta["var_lines"]).get(n)}))
+        ctx.cov.setdefault("exported_symbols", {})[tag] = {
+            "declared_in_lib_rs": len(r.funs) + len(r.vars), "dynamic_defined_symbols_of_liba_so": len(dyn),
+            "declared_and_exported": sum(1 for x in [f[0] for f in r.funs] + [v[0] for v in r.vars] if x in dyn),
+            "how": built.get("how")}
         for key, what, det in oracle:
             reported.setdefault(key, (what, det, []))[2].append(tag)
         ctx.cov.setdefault("declarations", {})[tag] = {
@@ -294,15 +523,19 @@ def run_real(ctx, proofs_ok):
             "model_mismatches": mms.get(tag), "ffi_aliases_used": r.meta["ffi_used"]}
     ctx.c20_keys = sorted(reported)
     for key, (what, det, tags) in sorted(reported.items()):
-        line = None
+        line = det.get("_line")
         m = re.match(r"(fn|static|struct)/(\w+)", key)
         r = by_width["f64"][4]
         if m:
             line = {"fn": r.meta["fn_lines"], "static": r.meta["var_lines"], "struct": r.meta["lines"]}[m.group(1)].get(m.group(2))
-        ctx.report(key, what + " [configurations: %s]" % ",".join(tags),
-                   {"kind": "declaration", "key": key, "detail": det, "configurations": tags,
-                    "lib_rs_line": line, "repo": str(vlib.REPO),
-                    "how": "python3 tools/vcheck.py C20 --replay <this file>"}, found_input=True)
+        rep = {"kind": "declaration", "key": key, "detail": {k: v for k, v in det.items() if not k.startswith("_")},
+               "configurations": tags, "lib_rs_line": line, "repo": str(vlib.REPO),
+               "how": "python3 tools/vcheck.py C20 --replay <this file>"}
+        if "_replay" in det:
+            rep["replay_with"] = rep.pop("how")
+            rep.update(det["_replay"])
+        ctx.report(key, what + " [configurations: %s]" % ",".join(tags), rep, found_input=True)
+    cross_judge(ctx, by_width, xres, dumps, mms, set(reported), host_keys, host_lay, stats, thm_x_ok)
     ctx.sample({"struct": "pid_fuzzy (f64)", "model/rustc/gcc layout": [ln for ln in dumps.get("rust_f64", []) if " pid_fuzzy " in ln][:4]})
     ctx.sample({"fn": "a_pid_fuzzy_opr", "rust": next((A.coq_ty(A.T_ptr(A.T_fn(f[1], f[2]))) for f in by_width["f64"][4].funs if f[0] == "a_pid_fuzzy_opr"), None),
                 "c": next((A.coq_ty(A.T_ptr(A.T_fn(f[1], f[2]))) for f in by_width["f64"][3].funs if f[0] == "a_pid_fuzzy_opr"), None)})
@@ -447,7 +680,15 @@ def run(ctx):
         "rustc's repr(C) = C layout is observed on these structs, not proved",
         "the compatibility relation [compat] of coq/C20/AbiDefs.v (char ~ i8/u8, void* wildcard, pointer-to-array ~ "
         "pointer-to-element, field name = or + '_', mirror name a_<name>, rust_only list) is a definition a reader must agree with",
-        "nm on objects compiled from the current src/*.c for symbol existence"]
+        "nm on objects compiled from the current src/*.c for symbol existence; nm -D on the shared object linked from them "
+        "(gcc -fPIC -fvisibility=hidden -DA_EXPORTS, the flags of set_library_compile / set_library_options in CMakeLists.txt) "
+        "for export: compiler-observed, host only (ELF visibility; the Windows dllexport path uses the same A_PUBLIC macro)",
+        "cross targets (harness/C20/abix.py): clang --target=<T> -ffreestanding -nostdlibinc -isystem harness/C20/stubs and "
+        "rustc --target <T'> front ends only (clang constant evaluation read from the JSON AST; rustc #[rustc_layout] in a "
+        "#![no_core] crate, RUSTC_BOOTSTRAP=1); the pairing T <-> T' is checked on the size/alignment of 15 primitives; "
+        "core::ffi aliases per target as documented by Rust (c_int = int, c_uint = unsigned int are the only ones used); "
+        "the layout parameters handed to the Coq model (pointer size, alignment of 8/16-byte scalars) are the observed ones "
+        "and the model's layout is compared with both compilers' on every target"]
     if not ctx.quick:
         rc, out = vlib.sh(["coqchk", "-silent", "-o", "-Q", ".", "LibaV", "LibaV.Properties_C20"], cwd=vlib.COQ, timeout=900)
         if rc != 0:
@@ -474,11 +715,26 @@ META = {
             "equal offset/size/alignment/compatible name, type and machine class, and for every extern fn equal arity, parameter "
             "classes in order and result class; layout_wf and read_field_agree (bytes written through one declaration are read "
             "identically through the other). Both declaration lists are REGENERATED on every run from the current src/lib.rs and "
-            "include/a/*.h (f64 and f32) and abi_compatible ... = true is re-checked by coqc (vm_compute) against them.",
-    "note": "Trusted: Coq kernel/vm_compute; the translator harness/C20/abi2coq.py (clang JSON AST + a parser for the lib.rs "
-            "subset), whose type resolution and the model's layout rule are cross-checked every run against gcc, clang and "
-            "rustc (sizeof/alignof/offsetof of every record, type-compatibility static asserts, nm for symbol existence); "
-            "x86-64 LP64; the definitions compat / rust_only a reader must agree with; repr(C) = C layout rule is observed "
-            "against rustc, not proved. No axioms.",
-    "technique": "Rocq proof by reflection (sound boolean checker, vm_compute on declarations regenerated from the sources by a translator)",
+            "include/a/*.h (f64 and f32) and abi_compatible ... = true is re-checked by coqc (vm_compute) against them. The same is "
+            "done for the other data models the project supports: the layout rule and the reflection are proved for every target "
+            "(pointer size, alignment of 8/16-byte scalars: coq/C20/AbiTarget.v; at the host's parameters it IS the host model), "
+            "and for i686 Linux (ILP32, 8-byte scalars aligned to 4), Windows x64 MinGW and MSVC (LLP64), AArch64 Linux and 32-bit "
+            "ARM EABI with -fshort-enums both lists are regenerated with that target's compiler front ends (clang --target JSON AST "
+            "with the target's own base-type table; lib.rs with the target's usize / core::ffi) and abi_compatible_t <target> ... = "
+            "true is re-proved (6 theorems per target). Compiler-observed, not theorems: that every foreign fn/static of lib.rs is "
+            "an exported dynamic symbol of the shared library built with the project's flags (nm -D), and the per-target layouts "
+            "clang and rustc report, against which the model's layout is compared line by line.",
+    "note": "Trusted: Coq kernel/vm_compute; the translator harness/C20/abi2coq.py + abix.py (clang JSON AST + a parser for the "
+            "lib.rs subset), whose type resolution and the model's layout rule are cross-checked every run against gcc, clang and "
+            "rustc on the host (sizeof/alignof/offsetof of every record, type-compatibility static asserts, nm for symbol "
+            "existence) and against clang --target / rustc --target for every cross target (front ends only, nothing is run: "
+            "clang's constant evaluator for sizeof/_Alignof/offsetof and __builtin_types_compatible_p, rustc's layout_of through "
+            "#[rustc_layout] in a #![no_core] crate with RUSTC_BOOTSTRAP=1; stub <math.h>/<string.h> in harness/C20/stubs); the "
+            "pairing of a clang triple with a rustc triple (checked on the primitives' size/alignment) and core::ffi's per-target "
+            "aliases (c_int = int, ...: only c_int/c_uint occur); x86-64 LP64 for the programs that are run; the definitions "
+            "compat / rust_only a reader must agree with; repr(C) = C layout rule is observed against rustc, not proved; the "
+            "shared-object check uses gcc/ld/nm on the host with -fPIC -fvisibility=hidden -DA_EXPORTS as in CMakeLists.txt "
+            "(set_library_compile / set_library_options), not the CMake build itself. No axioms.",
+    "technique": "Rocq proof by reflection (sound boolean checker, vm_compute on declarations regenerated from the sources by a "
+                 "translator, per data model); differential checks against compilers (cross-target front ends, exported symbols)",
 }
